@@ -530,6 +530,10 @@ func ruleServeHTTP(w *World, r *Run, ruleB, ruleC, ruleE string) {
 
 // C11.b REFUSAL-IS-TOTAL (parseBody half) and C11.d ORDER-PRESERVING
 func ruleParseBodyTotal(w *World, r *Run, ruleB, ruleD string) {
+	ruleE := "C11.e"
+	if !strings.HasPrefix(ruleD, "C11") {
+		ruleE = ruleD
+	}
 	sums, e, ok := explore(w, r, ruleB, fnParseBody, 4, 2)
 	if !ok {
 		return
@@ -666,11 +670,11 @@ func ruleParseBodyTotal(w *World, r *Run, ruleB, ruleD string) {
 					retained = "appended to the result"
 				}
 			}
-			r.Check(retained == "", "C11.e", fnParseBody+" | ReadLine's buffer view is not retained across reads", w.pos(rl.Pos), "the slice returned by bufio.Reader.ReadLine is "+retained+" without being copied; it is overwritten by the next read, so bodies larger than the buffer (or delivered in several chunks) parse to different bytes than were written")
+			r.Check(retained == "", ruleE, fnParseBody+" | ReadLine's buffer view is not retained across reads", w.pos(rl.Pos), "the slice returned by bufio.Reader.ReadLine is "+retained+" without being copied; it is overwritten by the next read, so bodies larger than the buffer (or delivered in several chunks) parse to different bytes than were written")
 		}
 	}
 	if nRL == 0 {
-		r.Info("C11.e", fnParseBody+" | ReadLine", "", "parseBody no longer uses ReadLine")
+		r.Info(ruleE, fnParseBody+" | ReadLine", "", "parseBody no longer uses ReadLine")
 	}
 }
 
